@@ -275,15 +275,15 @@ func (g *influxqlStreamingTransformGroup) Barrier(b edge.BarrierMessage) (edge.M
 }
 
 func (n *InfluxQLNode) getCreateFn(kind reflect.Kind) (createReduceContextFunc, error) {
-	changed := n.currentKind != kind
-	if !changed && n.createFn != nil {
+	if n.createFn != nil && n.currentKind == kind {
 		return n.createFn, nil
 	}
-	n.currentKind = kind
 	createFn, err := determineReduceContextCreateFn(n.n.Method, kind, n.n.ReduceCreater)
 	if err != nil {
+		// Keep the cache as it is: createFn must always be the creator for currentKind.
 		return nil, errors.Wrapf(err, "invalid influxql func %s with field %s", n.n.Method, n.n.Field)
 	}
+	n.currentKind = kind
 	n.createFn = createFn
 	return n.createFn, nil
 }
